@@ -51,6 +51,11 @@ def rule_r2(facts, col):
                     col.ok("C08.R2", key, body.where(bb), "both sides are explicit sub-slices")
 
 
+def _is_const(e, v):
+    p = peel(e, through_try=False)
+    return p.k == "const" and p.v == v and not isinstance(p.v, bool)
+
+
 def multiple_of(body, bb, e, c, depth=0):
     """Is expression e provably a multiple of c (c = constant or structurally the same expression)?"""
     e = peel(e, through_try=False)
